@@ -18,7 +18,9 @@
      matches it; an alternative that is a blocker is satisfied when no *other* package of the
      final state matches it;
    * the blocker clause concerns unconditional blockers (a clause that is one blocker atom) of
-     every planned package, installed ones included. *)
+     every planned package, installed ones included; for an installed package that is a *built*
+     package the harness exports DEPEND and BDEPEND as empty: the build-time dependencies recorded
+     for an already built package bind nothing (merge_plan skips them unless process_built_depends). *)
 From Coq Require Import List NArith ZArith Bool.
 Import ListNotations.
 From Verif Require Import Base.Val C15.Model_C15.
